@@ -4,3 +4,4 @@ import ReuseVerif.Theorems.C05
 import ReuseVerif.Theorems.C17
 import ReuseVerif.Theorems.C04
 import ReuseVerif.Theorems.C03
+import ReuseVerif.Theorems.C11
